@@ -39,11 +39,16 @@ func coYield(L *LState) int {
 	return -1
 }
 
-func coResume(L *LState) int {
+// coResume resumes the thread in argument 1. wrapped says how this resume answers:
+// like a wrap function (values, errors raised) or like coroutine.resume
+// ((true, values...) / (false, error)). The thread records it only once the resume
+// really takes place: a refused resume (of the running thread, say) must not change
+// how the resume that is in progress hands its values over.
+func coResume(L *LState, wrapped bool) int {
 	th := L.CheckThread(1)
 	if L.G.CurrentThread == th {
 		msg := "can not resume a running thread"
-		if th.wrapped {
+		if wrapped {
 			L.RaiseError(msg)
 			return 0
 		}
@@ -55,7 +60,7 @@ func coResume(L *LState) int {
 		// th has resumed another coroutine and is waiting for it (status "normal"):
 		// re-entering it would run its Go frames a second time
 		msg := "can not resume a non-suspended thread"
-		if th.wrapped {
+		if wrapped {
 			L.RaiseError(msg)
 			return 0
 		}
@@ -65,7 +70,7 @@ func coResume(L *LState) int {
 	}
 	if th.Dead {
 		msg := "can not resume a dead thread"
-		if th.wrapped {
+		if wrapped {
 			L.RaiseError(msg)
 			return 0
 		}
@@ -77,11 +82,12 @@ func coResume(L *LState) int {
 		// the body was a Go function that yielded: nothing is left to run, so it
 		// ends and returns the values it is resumed with
 		th.kill()
-		if !th.wrapped {
+		if !wrapped {
 			L.Insert(LTrue, 2)
 		}
 		return L.GetTop() - 1
 	}
+	th.wrapped = wrapped
 	th.Parent = L
 	L.G.CurrentThread = th
 	func() {
@@ -141,16 +147,14 @@ func coStatus(L *LState) int {
 
 func wrapaux(L *LState) int {
 	th := L.ToThread(UpvalueIndex(1))
-	th.wrapped = true // this resume hands values and errors over the way a wrap function does
 	L.Insert(th, 1)
-	return coResume(L)
+	return coResume(L, true) // this resume hands values and errors over the way a wrap function does
 }
 
 // coResumeLua is coroutine.resume: whatever created the thread, this resume reports
 // (true, values...) or (false, error).
 func coResumeLua(L *LState) int {
-	L.CheckThread(1).wrapped = false
-	return coResume(L)
+	return coResume(L, false)
 }
 
 func coWrap(L *LState) int {
